@@ -159,6 +159,7 @@ var wantOps = []wantOp{
 	{"put", "/beta/things", "UpdateBeta", "Beta", false, "schemeD[read]", nil, "required", "200", nil},
 	{"get", "/beta/things", "ListBeta", "Beta", false, "schemeD[read]", []string{"filter:query:true", "rank:query:true"}, "", "200", nil},
 	{"patch", "/beta/things/{thingId}/", "PatchBeta", "Beta", false, "schemeD[read]", []string{"thingId:path:true"}, "optional", "202", []string{"409", "422"}},
+	{"get", "/alpha/types", "AllTypes", "Alpha", false, "schemeA[read]", []string{"vint:query:true", "vint8:query:true", "vint16:query:true", "vint32:query:true", "vint64:query:true", "vuint:query:true", "vuint8:query:true", "vuint16:query:true", "vuint32:query:true", "vuint64:query:true", "vbool:query:true", "vfloat32:query:true", "vfloat64:query:true", "vstring:query:true", "puint:query:false", "pint64:query:false", "pfloat32:query:false", "pbool:query:false", "aint:query:true", "auint:query:true", "astring:query:true", "afloat64:query:true"}, "", "204", nil},
 	{"get", "/alpha/count", "CountAlpha", "Alpha", false, "schemeA[read]", nil, "", "200", nil},
 	{"put", "/gamma/receipts", "FileReceipt", "Gamma", false, "schemeD[read]", nil, "required", "200", nil},
 	{"post", "/gamma/widgets", "CreateWidget", "Gamma", false, "schemeD[read]", nil, "required", "200", []string{"500"}},
@@ -595,7 +596,10 @@ func TestVerifC10AcceptReject(t *testing.T) {
 		})
 		accepted := err == nil
 		switch {
-		case only == "C18":
+		case only == "C18" || only == "C14":
+			// (C14 only asks that every run ends normally: a crash ends the test binary and the stand-in with it)
+		case want == "any":
+			// unsupported or unusual type shapes: accepted or rejected with a message, but the run must end normally
 		case want == "accept" && !accepted:
 			fmt.Printf("VERIF-FAIL: class=C10-wellformed-project-rejected-%s project cases/%s is well linked but was rejected: %v\n", name, name, firstLine(err))
 			failed = true
@@ -603,14 +607,14 @@ func TestVerifC10AcceptReject(t *testing.T) {
 			fmt.Printf("VERIF-FAIL: class=C10-illformed-project-accepted-%s project cases/%s violates the linking rules but was accepted\n", name, name)
 			failed = true
 		}
-		if only == "C18" {
+		if only == "C18" || only == "C14" {
 			failed = false // C10 classes above are not this run's concern
 		}
-		if !accepted && (len(r) > 0 || len(s) > 0) && only != "C18" {
+		if !accepted && want != "any" && (len(r) > 0 || len(s) > 0) && only != "C18" && only != "C14" {
 			fmt.Printf("VERIF-FAIL: class=C10-output-written-on-rejection-%s project cases/%s was rejected but artefacts were written\n", name, name)
 			failed = true
 		}
-		if !accepted && want != "accept" && only != "C10" {
+		if !accepted && want != "accept" && want != "any" && only != "C10" && only != "C14" {
 			// C18: no entity is listed twice in the command's error text
 			text := err.Error()
 			// within one entity block no diagnostic line may repeat
@@ -742,6 +746,85 @@ func TestVerifC18Ranges(t *testing.T) {
 		}
 	}
 	fmt.Printf("VERIF-CASES: %d (diagnostics of the fixture project and the corpus, warnings included)\n", n)
+	fmt.Println("VERIF-DONE")
+	if failed {
+		t.Fail()
+	}
+}
+
+// C20: single-field corruptions of the configuration are rejected up front, naming the field, and nothing is
+// written; accepted permission strings are honoured literally.
+func TestVerifC20Config(t *testing.T) {
+	type mut struct {
+		name   string
+		apply  func(cfg map[string]any)
+		reject string // "" = accepted; otherwise a (case-insensitive) fragment of the field name the message must carry
+		mode   os.FileMode
+	}
+	rc := func(cfg map[string]any) map[string]any { return cfg["routesConfig"].(map[string]any) }
+	oc := func(cfg map[string]any) map[string]any { return cfg["openapiGeneratorConfig"].(map[string]any) }
+	scheme0 := func(cfg map[string]any) map[string]any { return oc(cfg)["securitySchemes"].([]any)[0].(map[string]any) }
+	muts := []mut{
+		{"baseline", func(cfg map[string]any) {}, "", 0o644},
+		{"perms-0600", func(cfg map[string]any) { rc(cfg)["outputFilePerms"] = "0600" }, "", 0o600},
+		{"perms-640", func(cfg map[string]any) { rc(cfg)["outputFilePerms"] = "640" }, "", 0o640},
+		{"perms-empty", func(cfg map[string]any) { rc(cfg)["outputFilePerms"] = "" }, "", 0o644},
+		{"perms-4755", func(cfg map[string]any) { rc(cfg)["outputFilePerms"] = "4755" }, "outputfileperms", 0},
+		{"perms-999", func(cfg map[string]any) { rc(cfg)["outputFilePerms"] = "999" }, "outputfileperms", 0},
+		{"perms-abc", func(cfg map[string]any) { rc(cfg)["outputFilePerms"] = "abc" }, "outputfileperms", 0},
+		{"perms-07777", func(cfg map[string]any) { rc(cfg)["outputFilePerms"] = "07777" }, "outputfileperms", 0},
+		{"engine-unknown", func(cfg map[string]any) { rc(cfg)["engine"] = "express" }, "engine", 0},
+		{"engine-missing", func(cfg map[string]any) { delete(rc(cfg), "engine") }, "engine", 0},
+		{"routes-output-missing", func(cfg map[string]any) { delete(rc(cfg), "outputPath") }, "outputpath", 0},
+		{"openapi-version-unknown", func(cfg map[string]any) { oc(cfg)["openapi"] = "2.0" }, "openapi", 0},
+		{"baseurl-malformed", func(cfg map[string]any) { oc(cfg)["baseUrl"] = "not a url" }, "baseurl", 0},
+		{"info-title-missing", func(cfg map[string]any) { delete(oc(cfg)["info"].(map[string]any), "title") }, "title", 0},
+		{"info-version-missing", func(cfg map[string]any) { delete(oc(cfg)["info"].(map[string]any), "version") }, "version", 0},
+		{"contact-email-malformed", func(cfg map[string]any) {
+			oc(cfg)["info"].(map[string]any)["contact"] = map[string]any{"name": "n", "email": "nope", "url": "http://example.com"}
+		}, "email", 0},
+		{"scheme-type-unknown", func(cfg map[string]any) { scheme0(cfg)["type"] = "weird" }, "type", 0},
+		{"scheme-in-unknown", func(cfg map[string]any) { scheme0(cfg)["in"] = "body" }, "in", 0},
+		{"scheme-name-missing", func(cfg map[string]any) { delete(scheme0(cfg), "name") }, "name", 0},
+		{"scheme-name-twice", func(cfg map[string]any) {
+			l := oc(cfg)["securitySchemes"].([]any)
+			l[1].(map[string]any)["name"] = l[0].(map[string]any)["name"]
+		}, "securityschemes", 0},
+		{"spec-output-missing", func(cfg map[string]any) { delete(oc(cfg)["specGeneratorConfig"].(map[string]any), "outputPath") }, "outputpath", 0},
+	}
+	failed := false
+	for _, m := range muts {
+		dir := t.TempDir()
+		r, s, err := genInto(t, dir, m.apply)
+		switch {
+		case m.reject == "" && err != nil:
+			fmt.Printf("VERIF-FAIL: class=C20-valid-config-rejected-%s %v\n", m.name, firstLine(err))
+			failed = true
+		case m.reject == "" && err == nil:
+			st, serr := os.Stat(filepath.Join(dir, "routes.go"))
+			if serr != nil || st.Mode().Perm() != m.mode {
+				got := os.FileMode(0)
+				if st != nil {
+					got = st.Mode().Perm()
+				}
+				fmt.Printf("VERIF-FAIL: class=C20-permissions-not-honoured-%s routes file mode %o, configured %o\n", m.name, got, m.mode)
+				failed = true
+			}
+		case m.reject != "" && err == nil:
+			fmt.Printf("VERIF-FAIL: class=C20-corrupted-config-accepted-%s the configuration violates a declared constraint but the command succeeded\n", m.name)
+			failed = true
+		case m.reject != "":
+			if len(r) > 0 || len(s) > 0 {
+				fmt.Printf("VERIF-FAIL: class=C20-output-written-on-rejected-config-%s artefacts were written\n", m.name)
+				failed = true
+			}
+			if !strings.Contains(strings.ToLower(err.Error()), m.reject) {
+				fmt.Printf("VERIF-FAIL: class=C20-message-does-not-name-field-%s message %q does not mention %q\n", m.name, firstLine(err), m.reject)
+				failed = true
+			}
+		}
+	}
+	fmt.Printf("VERIF-CASES: %d (configurations: the fixture's and single-field corruptions of it)\n", len(muts))
 	fmt.Println("VERIF-DONE")
 	if failed {
 		t.Fail()
